@@ -3,22 +3,24 @@ import DEngine.Props.C01
 # C02 — Votes and terms survive crashes
 
 Same cluster model as C01 (one node of it is the "single node with a persistence image" of the property:
-`Proc.image` is the content of the meta store, `stop` = `Drop for Raft` saves it, `crash` does not, `restart`
-rebuilds the node from it as `NodeBuilder::build` does).  `(run c ls).grants` is the ghost list of every vote a
-node cast: `(voter, candidate, term)` for each `VoteResponse{vote_granted: true}` it produced and for each
-self-vote of an election it started.
+`Proc.image` is the content of the meta store; since fix c4109f0 every `SharedState` mutator saves the hard state
+when term or vote change, `stop` = `Drop for Raft` saves it again, `crash` = no `Drop`, `restart` rebuilds the
+node from the image as `NodeBuilder::build` does).  `(run c ls).grants` is the ghost list of every vote a node
+cast: `(voter, candidate, term)` for each `VoteResponse{vote_granted: true}` it produced and for each self-vote of
+an election it started.
 
-* `OneVotePerTermStatement` — every node, every schedule: at most one candidate per (voter, term).
-  **False for the code as it is**: `one_vote_per_term_false_F2` (crash: hard state only saved in `Drop`),
-  `one_vote_per_term_false_F1` (same-term `BecomeFollower` resets the vote), `one_vote_per_term_false_F30`
-  (`handle_append_entries_request_workflow` overwrites `voted_for` with the announced leader, whose late vote
-  request is then granted).  All three are replayed on the real code (corpus/elect).
-* `one_vote_per_term_partial` — holds on every schedule without those three triggers.
-* `TermMonotoneStatement` — a node's current term never decreases.  **False** after a crash
-  (`term_monotone_false_F2`) and for a learner even after a graceful restart (`term_monotone_false_F31`:
-  `NodeBuilder` builds a learner with `LearnerState::new`, without the stored hard state).
-* `term_monotone_partial` — holds on every schedule without a crash and without a learner restart; no other
-  hypothesis (not even the environment assumptions) is needed.
+History: as found, both halves were false: votes (F2 crash — fixed c4109f0, F1 same-term `BecomeFollower` —
+fixed 65007c0) and terms (F2 crash, F31 learner rebuilt without hard state — fixed b8fde38).  The model follows
+the fixed code; the witness schedules are kept as regressions.
+
+* `term_monotone` — **full strength**: on every schedule (crashes at any point, restarts, learners) the term of
+  every node is non-decreasing.  No hypothesis at all beyond a consistent initial image.
+* `OneVotePerTermStatement` — one candidate per (voter, term) on every schedule.  **Still false for the code as
+  it is** (`one_vote_per_term_false_F32`, open finding F32): `handle_append_entries_request_workflow` overwrites
+  `voted_for` with the announced leader, whose late vote request for the same term is then granted although the
+  node had voted for another candidate.  (Harmless for C01: the second grantee already leads the term.)
+* `one_vote_per_term_partial` — holds on every schedule (crashes included) in which no vote request is made on
+  behalf of a node that is already a recorded leader of that term — the exact F32 trigger.
 -/
 namespace DEngine.C02
 open DEngine.Elect DEngine.C01
@@ -40,39 +42,27 @@ def f1Votes : List Label :=
 def members5 : List MNode := [⟨1, false, 3⟩, ⟨2, false, 3⟩, ⟨3, false, 3⟩, ⟨4, false, 3⟩, ⟨5, false, 3⟩]
 def c5 : Cluster := freshCluster (fun _ => members5) (fun i => Memb.mk' i members5)
 
-/-- F30: node 2 votes for node 1 in term 2 (1 loses: 2 of 5); node 3 wins term 2 with 4 and 5; its heartbeat
+/-- F32: node 2 votes for node 1 in term 2 (1 loses: 2 of 5); node 3 wins term 2 with 4 and 5; its heartbeat
     overwrites node 2's vote; a late copy of node 3's vote request is then granted by node 2. -/
 def f30Votes : List Label :=
   [.timeout 1, .start 1, .deliver 1 2, .finish 1 true, .timeout 3, .start 3, .deliver 3 4, .deliver 3 5,
    .finish 3 true, .heartbeat 3 2, .voteReq 2 ⟨2, 3, 0, 0⟩]
 
-theorem f2_votes : (run c3 f2Votes).grants = [(2, 3, 2), (2, 1, 2)] := by decide
-theorem f1_votes : (run c3 f1Votes).grants = [(1, 3, 2), (2, 1, 2), (1, 1, 2)] := by decide
-theorem f30_votes : (run c5 f30Votes).grants = [(2, 3, 2), (5, 3, 2), (4, 3, 2), (3, 3, 2), (2, 1, 2), (1, 1, 2)] := by
+/-- regressions of F2 and F1: the second vote request is now denied -/
+theorem f2_votes_regression : (run c3 f2Votes).grants = [(2, 1, 2)] := by decide
+theorem f1_votes_regression : (run c3 f1Votes).grants = [(2, 1, 2), (1, 1, 2)] := by decide
+
+theorem f32_votes : (run c5 f30Votes).grants = [(2, 3, 2), (5, 3, 2), (4, 3, 2), (3, 3, 2), (2, 1, 2), (1, 1, 2)] := by
   decide
 
-/-- **The code as it is violates C02** — F2. -/
-theorem one_vote_per_term_false_F2 : ¬ OneVotePerTermStatement := by
-  intro h
-  have := h [1, 2, 3] c3 f2Votes (fresh_freshCluster _ _) (by decide)
-  rw [f2_votes] at this
-  revert this; decide
-
-/-- **The code as it is violates C02** — F1. -/
-theorem one_vote_per_term_false_F1 : ¬ OneVotePerTermStatement := by
-  intro h
-  have := h [1, 2, 3] c3 f1Votes (fresh_freshCluster _ _) (by decide)
-  rw [f1_votes] at this
-  revert this; decide
-
-/-- **The code as it is violates C02** — F30 (harmless for C01: the second grantee already leads the term). -/
-theorem one_vote_per_term_false_F30 : ¬ OneVotePerTermStatement := by
+/-- **The code as it is violates C02** — F32 (harmless for C01: the second grantee already leads the term). -/
+theorem one_vote_per_term_false_F32 : ¬ OneVotePerTermStatement := by
   intro h
   have := h [1, 2, 3, 4, 5] c5 f30Votes (fresh_freshCluster _ _) (by decide)
-  rw [f30_votes] at this
+  rw [f32_votes] at this
   revert this; decide
 
-/-- no vote request on behalf of a node that is already a recorded leader of that term (the F30 trigger) -/
+/-- no vote request on behalf of a node that is already a recorded leader of that term (the F32 trigger) -/
 def noLeaderReqB (c : Cluster) : Label → Bool
   | .voteReq _ r => !c.isLeaderAt r.cand r.term
   | _ => true
@@ -188,19 +178,20 @@ theorem jstrict_run {V : List Nat} : ∀ (ls : List Label) (c : Cluster), Inv V 
     simp only [run, List.foldl_cons]
     exact jstrict_run ls (step c l) (inv_step h l hs.1) (jstrict_step h hj l hn.1) hs.2 hn.2
 
-/-- **C02 (votes), partial**: one candidate per voter and term on every schedule without a crash, without a
-    same-term step-down and without a vote request of an already established leader. -/
+/-- **C02 (votes), partial**: one candidate per voter and term on every schedule — crashes, restarts and
+    step-downs included — without a vote request of an already established leader (F32 trigger). -/
 theorem one_vote_per_term_partial (V : List Nat) (c0 : Cluster) (ls : List Label) (h0 : Fresh c0)
-    (he : traceAll (envB V) c0 ls = true) (hn : traceAll noTriggerB c0 ls = true)
-    (hl : traceAll noLeaderReqB c0 ls = true) : votesOK (run c0 ls).grants = true := by
-  refine votesOK_of_jstrict (jstrict_run ls c0 (inv_of_fresh V c0 h0) ?_ (safeTrace_of V ls c0 he hn) hl)
+    (he : traceAll (envB V) c0 ls = true) (hl : traceAll noLeaderReqB c0 ls = true) :
+    votesOK (run c0 ls).grants = true := by
+  refine votesOK_of_jstrict (jstrict_run ls c0 (inv_of_fresh V c0 h0) ?_ (safeTrace_of V ls c0 he) hl)
   intro p x t hm
   rw [h0.grants] at hm
   cases hm
 
-/-- non-vacuity: the schedule `okTrace` of C01 (split vote, lost reply, duplicate request, graceful restart,
-    re-election) satisfies all hypotheses -/
-example : traceAll noLeaderReqB c3 okTrace = true ∧ votesOK (run c3 okTrace).grants = true := by decide
+/-- non-vacuity: `okTrace` of C01 (split vote, lost reply, duplicate request, graceful restart, crash inside an
+    election, step-down) and the former F1 / F2 witnesses satisfy all hypotheses -/
+example : traceAll noLeaderReqB c3 okTrace = true ∧ votesOK (run c3 okTrace).grants = true ∧
+    traceAll noLeaderReqB c3 f2Votes = true ∧ traceAll noLeaderReqB c3 f1Votes = true := by decide
 
 /-! ### the current term never decreases -/
 
@@ -209,52 +200,19 @@ def termTrace (p : Nat) : Cluster → List Label → List Nat
   | c, [] => [(c.proc p).node.term]
   | c, l :: ls => (c.proc p).node.term :: termTrace p (step c l) ls
 
-def TermMonotoneStatement : Prop :=
-  ∀ (c0 : Cluster) (ls : List Label) (p : Nat), Fresh c0 → sortedLE (termTrace p c0 ls) = true
-
-/-- F2: a term adopted from a vote request is gone after crash + restart -/
+/-- former witnesses: a term adopted from a vote request, then crash + restart (F2) / a learner's graceful
+    restart (F31) -/
 def f2Term : List Label := [.voteReq 2 ⟨5, 1, 0, 0⟩, .crash 2, .restart 2]
-theorem f2_terms : termTrace 2 c3 f2Term = [1, 5, 5, 1] := by decide
-
-/-- **The code as it is violates C02** — the term goes back after a crash (F2). -/
-theorem term_monotone_false_F2 : ¬ TermMonotoneStatement := by
-  intro h
-  have := h c3 f2Term 2 (fresh_freshCluster _ _)
-  rw [f2_terms] at this
-  revert this; decide
-
-/-- F31: a learner is rebuilt without its hard state even after a graceful stop -/
 def cLearner : Cluster :=
   { c3 with proc := fun i => if i = 4 then
       { node := bootNode 4 true none 0 0 [], up := true, image := none, memb := Memb.mk' 4 members3,
         initial := members3, startLearner := true }
       else c3.proc i }
 def f31Term : List Label := [.voteReq 4 ⟨7, 1, 0, 0⟩, .stop 4, .restart 4]
-theorem f31_terms : termTrace 4 cLearner f31Term = [1, 7, 7, 1] := by decide
 
-theorem fresh_cLearner : Fresh cLearner := by
-  refine ⟨rfl, rfl, fun _ _ => rfl, fun _ => rfl, fun p => ?_, fun p h => ?_⟩
-  · by_cases hp : p = 4
-    · subst hp; simp [cLearner, bootNode]
-    · simp [cLearner, hp, c3, freshCluster, bootNode]
-  · by_cases hp : p = 4
-    · subst hp; simp [cLearner] at h
-    · simp [cLearner, hp, c3, freshCluster] at h
-
-/-- **The code as it is violates C02** — a learner's term is 1 after every restart (F31). -/
-theorem term_monotone_false_F31 : ¬ TermMonotoneStatement := by
-  intro h
-  have := h cLearner f31Term 4 fresh_cLearner
-  rw [f31_terms] at this
-  revert this; decide
-
-def noResetB (c : Cluster) : Label → Bool
-  | .crash _ => false
-  | .restart p => !(c.proc p).startLearner
-  | _ => true
-
-theorem noReset_of (c : Cluster) (l : Label) (h : noResetB c l = true) : NoReset c l ∧ ∀ p, l ≠ .crash p := by
-  cases l <;> simp_all [noResetB, NoReset]
+/-- regressions: the term survives -/
+theorem f2_terms_regression : termTrace 2 c3 f2Term = [1, 5, 5, 5] := by decide
+theorem f31_terms_regression : termTrace 4 cLearner f31Term = [1, 7, 7, 7] := by decide
 
 theorem termTrace_head (p : Nat) (c : Cluster) (ls : List Label) :
     ∃ rest, termTrace p c ls = (c.proc p).node.term :: rest := by
@@ -264,25 +222,28 @@ theorem sortedLE_cons {a b : Nat} {rest : List Nat} (h : a ≤ b) (hs : sortedLE
     sortedLE (a :: b :: rest) = true := by
   simp [sortedLE, h, hs]
 
-/-- **C02 (terms), partial**: without a crash and without a learner restart the term of every node is
-    non-decreasing along every schedule — no other assumption. -/
-theorem term_monotone_partial : ∀ (ls : List Label) (c0 : Cluster) (p : Nat), DInv c0 →
-    traceAll noResetB c0 ls = true → sortedLE (termTrace p c0 ls) = true
-  | [], _, _, _, _ => rfl
-  | l :: ls, c0, p, hd, hs => by
-    simp only [traceAll, Bool.and_eq_true] at hs
-    obtain ⟨hnr, hnc⟩ := noReset_of c0 l hs.1
-    have ih := term_monotone_partial ls (step c0 l) p (dinv_step c0 hd l hnc) hs.2
+/-- **C02 (terms), full strength**: on every schedule — crashes, restarts, learners, forged messages, anything —
+    the term of every node is non-decreasing.  `DInv c0`: the image of a node that is down at the start agrees
+    with its last hard state (true of every freshly booted cluster). -/
+theorem term_monotone : ∀ (ls : List Label) (c0 : Cluster) (p : Nat), DInv c0 →
+    sortedLE (termTrace p c0 ls) = true
+  | [], _, _, _ => rfl
+  | l :: ls, c0, p, hd => by
+    have ih := term_monotone ls (step c0 l) p (dinv_step c0 hd l)
     obtain ⟨rest, hr⟩ := termTrace_head p (step c0 l) ls
     simp only [termTrace]
     rw [hr] at ih ⊢
-    exact sortedLE_cons (step_term_le c0 hd l hnr p) ih
+    exact sortedLE_cons (step_term_le c0 hd l p) ih
 
 theorem dinv_of_fresh {c : Cluster} (h : Fresh c) : DInv c := h.down
 
-/-- non-vacuity: graceful stop + restart keeps the term -/
-example : traceAll noResetB c3 [.voteReq 2 ⟨5, 1, 0, 0⟩, .stop 2, .restart 2, .voteReq 2 ⟨5, 3, 0, 0⟩] = true ∧
-    termTrace 2 c3 [.voteReq 2 ⟨5, 1, 0, 0⟩, .stop 2, .restart 2, .voteReq 2 ⟨5, 3, 0, 0⟩] = [1, 5, 5, 5, 5] ∧
-    (run c3 [.voteReq 2 ⟨5, 1, 0, 0⟩, .stop 2, .restart 2, .voteReq 2 ⟨5, 3, 0, 0⟩]).grants = [(2, 1, 5)] := by decide
+/-- non-vacuity: `DInv` holds for the witness clusters -/
+example : DInv c3 ∧ DInv cLearner := by
+  constructor
+  · intro p h; simp [c3, freshCluster] at h
+  · intro p h
+    by_cases hp : p = 4
+    · subst hp; simp [cLearner] at h
+    · simp [cLearner, hp, c3, freshCluster] at h
 
 end DEngine.C02
